@@ -36,6 +36,16 @@
 class OPN2
 {
     friend class OPNMIDIplay;
+#ifdef OPNMIDI_VERIF
+    friend struct OpnVerifAccess;
+public:
+    //! Verification tap: called for every register/pan write and every generated period (per instance)
+    typedef void (*VerifTap)(void *ud, int kind, size_t chip, unsigned a, unsigned b, unsigned c);
+    VerifTap m_verifTap;
+    void *m_verifTapUd;
+    //! Verification small-scope limit of chip channels (0 = off)
+    uint32_t m_verifChanLimit;
+#endif
 public:
     enum { PercussionTag = 1 << 15 };
 
